@@ -99,6 +99,9 @@ void UtilContext::disasm(const char *token)
 
   if (get_range(token, &start, &end) == -1) { return; }
 
+  // The disasm_range functions count with 32 bits: while (start <= end).
+  if (end == 0xffffffff) { end--; }
+
   disasm_range(
     &memory,
     flags,
@@ -145,6 +148,8 @@ void UtilContext::disasm(uint32_t start, uint32_t end)
         address_min = memory.get_page_address_min(curr_start);
         address_max = memory.get_page_address_max(curr_end);
 
+        if ((uint32_t)address_max == 0xffffffff) { address_max--; }
+
         disasm_range(
           &memory,
           flags,
@@ -165,6 +170,8 @@ void UtilContext::disasm(uint32_t start, uint32_t end)
   {
     address_min = memory.get_page_address_min(curr_start);
     address_max = memory.get_page_address_max(curr_end);
+
+    if ((uint32_t)address_max == 0xffffffff) { address_max--; }
 
     disasm_range(
       &memory,
